@@ -199,10 +199,50 @@ impl Property for C20 {
             ops.push(g.gen_print().to_string());
             ops.push(g.gen_extract().to_string());
         }
+        if cfg_rng.chance(1, 3) {
+            // rows over containers that are rebuilt in place (contents change, id stays):
+            // the rebuild re-inserts the rows that mention them, and the order in which it
+            // does so becomes the physical row order that print-function shows
+            let mut t = root.fork("inplace");
+            let (sort, mk): (&str, fn(&str, &str) -> String) = match t.below(4) {
+                0 => ("Vec", |a, b| format!("(vec-of {a} {b})")),
+                1 => ("Set", |a, b| format!("(set-of {a} {b})")),
+                2 => ("MultiSet", |a, b| format!("(multiset-of {a} {b})")),
+                _ => ("Vec", |a, b| format!("(vec-of {b} {a} {b})")),
+            };
+            ops.push("(datatype M20__ (N20__ i64) (V20__) (Z20__))".into());
+            ops.push(format!("(sort C20__ ({sort} M20__))"));
+            let as_fn = t.chance(1, 2);
+            if as_fn {
+                ops.push("(function H20__ (i64 C20__) i64 :merge (min old new))".into());
+            } else {
+                ops.push("(relation H20__ (i64 C20__))".into());
+            }
+            if t.chance(1, 2) {
+                ops.push("(Z20__)".into());
+                ops.push("(V20__)".into());
+            } else {
+                ops.push("(V20__)".into());
+                ops.push("(Z20__)".into());
+            }
+            let n = 2 + t.below(14);
+            for i in 0..n {
+                let c = mk(&format!("(N20__ {i})"), "(V20__)");
+                ops.push(if as_fn { format!("(set (H20__ {i} {c}) {i})") } else { format!("(H20__ {i} {c})") });
+            }
+            ops.push("(union (V20__) (Z20__))".into());
+            if t.chance(1, 2) {
+                ops.push(g.gen_run().to_string());
+            }
+            ops.push("(print-function H20__ 100)".into());
+        }
         ops.push("(print-size)".into());
         ops.push("(print-stats)".into());
         case.ops = ops;
         case
+    }
+    fn violation_is_nondeterminism(&self) -> bool {
+        true
     }
     fn check(&self, case: &Case) -> CaseResult {
         let mut res = CaseResult::new();
@@ -213,6 +253,15 @@ impl Property for C20 {
         if t1 != t2 {
             res.violation("same-process-differs", first_diff(&t1, &t2));
             return res;
+        }
+        // a few more repetitions: an order drawn at random per run coincides by chance
+        // with probability 1/k! for k affected rows
+        for _ in 0..4 {
+            let t = transcript(&case.ops);
+            if t != t1 {
+                res.violation("same-process-differs", first_diff(&t1, &t));
+                return res;
+            }
         }
         if t1.contains("SIZE-BOUND") {
             res.inconclusive("size bound");
